@@ -50,7 +50,21 @@ fn check_add_slice<const M: usize>(offset: usize) {
     kani::cover!(d.checksum() == 0, "checksum zero reachable");
 }
 
-/// quick: len <= 64, slice starts at an even address
+/// quick: len <= 8 (every carry pattern of the two folds is reachable with 4 words), even start
+#[kani::proof]
+#[kani::unwind(7)]
+fn c03_cksum_add_slice_aligned_8() {
+    check_add_slice::<10>(0);
+}
+
+/// quick: len <= 8, slice starts at an odd address
+#[kani::proof]
+#[kani::unwind(7)]
+fn c03_cksum_add_slice_unaligned_8() {
+    check_add_slice::<10>(1);
+}
+
+/// thorough: len <= 64, slice starts at an even address
 #[kani::proof]
 #[kani::unwind(35)]
 fn c03_cksum_add_slice_aligned_64() {
